@@ -216,7 +216,9 @@ type c10Case struct {
 	Txs     []c10Tx      `json:"txs"`  // creation (topological) order
 	Perm    []int        `json:"perm"` // block order: positions -> creation index (normalised to a permutation)
 	PermTag string       `json:"perm_tag"`
-	DupPos  []int        `json:"dup_pos,omitempty"` // further block positions holding a transaction that is already in the block
+	// Filler: this many unrelated transactions (no outputs, one external input) stand in front of the others in the block
+	Filler int   `json:"filler,omitempty"`
+	DupPos []int `json:"dup_pos,omitempty"` // further block positions holding a transaction that is already in the block
 }
 
 type builtTx struct {
@@ -286,6 +288,18 @@ func buildTxs(c c10Case) ([]*builtTx, error) {
 			b.outPsh = append(b.outPsh, pushes)
 			b.outCls = append(b.outCls, txscript.GetScriptClass(script))
 		}
+		b.hash = b.msg.TxHash()
+		out = append(out, b)
+	}
+	if c.Filler < 0 || c.Filler > 70000 {
+		return nil, hbug("filler")
+	}
+	for i := 0; i < c.Filler; i++ {
+		b := &builtTx{msg: wire.NewMsgTx(1)}
+		b.msg.LockTime = uint32(1000000 + i)
+		prev := extHash(3)
+		b.msg.AddTxIn(wire.NewTxIn(wire.NewOutPoint(&prev, uint32(5000+i)), nil))
+		b.inPsh = append(b.inPsh, nil)
 		b.hash = b.msg.TxHash()
 		out = append(out, b)
 	}
@@ -436,6 +450,9 @@ func evalC10(c c10Case, o *Obs) error {
 
 	// ---- single transactions: each against a fresh copy of the preloaded filter ----
 	for ti, b := range txs {
+		if ti >= len(c.Txs)+3 {
+			break // filler transactions are all alike
+		}
 		f, m := c10Filter(c, items)
 		got := f.MatchTxAndUpdate(bchutil.NewTx(b.msg))
 		want, reasons := modelMatchTx(m, b, true)
@@ -479,7 +496,15 @@ func evalC10(c c10Case, o *Obs) error {
 	}
 
 	// ---- block scan ----
-	perm := normPerm(c.Perm, len(txs))
+	perm := normPerm(c.Perm, len(c.Txs))
+	if c.Filler > 0 {
+		full := make([]int, 0, len(txs))
+		for i := len(c.Txs); i < len(txs); i++ {
+			full = append(full, i)
+		}
+		perm = append(full, perm...)
+		o.Class("C10:block-of-more-than-65536-transactions")
+	}
 	for _, d := range c.DupPos { // the same transaction at a further position of the block
 		if d < 0 {
 			d = -d
@@ -908,6 +933,20 @@ func TestC10(t *testing.T) {
 		}
 		for _, c := range c10SavedCases() {
 			kC10.One(ev, c)
+		}
+		// one block of more than 2^16 transactions per shard: a spend chain laid out children first behind 65534..65537
+		// unrelated transactions
+		{
+			pool := []HexBytes{bytes.Repeat([]byte{2}, 33), bytes.Repeat([]byte{4}, 65), bytes.Repeat([]byte{7}, 20), bytes.Repeat([]byte{9}, 32), {}, {0xaa, 0xbb, 0xcc}}
+			big := c10Case{Pool: pool, Len: 2000, K: 10, Tweak: uint32(seedEnv), Flags: 1, Filler: 65534 + shard%4, PermTag: "reverse-topological",
+				Preload: []c10Preload{{Kind: "item", A: 5}}}
+			big.Txs = append(big.Txs, c10Tx{Ins: []c10In{{Src: -1, Out: 0, Script: scriptSpec{Cls: "empty"}}}, Outs: []scriptSpec{{Cls: "pushes", Items: []int{5}, Enc: []int{0}}}})
+			for k := 1; k <= 3; k++ {
+				big.Txs = append(big.Txs, c10Tx{LockTime: uint32(k), Ins: []c10In{{Src: k - 1, Out: 0, Script: scriptSpec{Cls: "empty"}}},
+					Outs: []scriptSpec{{Cls: "pushes", Items: []int{selfItemBase}, Enc: []int{0}}}})
+			}
+			big.Perm = []int{3, 2, 1, 0}
+			kC10.One(ev, big)
 		}
 		kC10.Run(t, ev, perShard(pick(6000, 700000)))
 		ev.requireClasses("C10:out-class=pubkey", "C10:out-class=multisig", "C10:out-class=pubkeyhash", "C10:out-class=scripthash",
